@@ -62,7 +62,16 @@ structure MGhost where
   /-- the connection would have been closed already (an error / panic was returned, or `close` was called) -/
   dead : Bool := false
   lastPer : Nat := 0
+  /-- tokens that were, at some time, registered twice at once according to the add/remove callbacks (two connection
+      IDs in use carried the same stateless reset token) -/
+  shared : List Bytes := []
 deriving Repr
+
+/-- tokens that become registered twice at once while the callbacks `evs` are applied to the multiset `reg` -/
+def sharedIn : List Bytes → List Ev → List Bytes
+  | _, [] => []
+  | reg, .addTok t :: rest => (if reg.contains t then [t] else []) ++ sharedIn (t :: reg) rest
+  | reg, e :: rest => sharedIn (applyTokEv reg e) rest
 
 /-- Ledger monitors for one manager operation.
     `rcv` = the sequence number delivered by this operation (NEW_CONNECTION_ID / preferred address), if it was processed. -/
@@ -88,12 +97,16 @@ def ledger (g : MGhost) (evs : List Ev) (s : ImplM) (rcv : Option Nat) : List Fa
   let all := f1 ++ f2 ++ f3 ++ f4 ++ f5
   (all, !all.isEmpty)
 
-def tokenMonitors (reg : List Bytes) (closed : Bool) (s : ImplM) : List Fail :=
+def tokenMonitors (reg : List Bytes) (closed : Bool) (s : ImplM) (shared : List Bytes := []) : List Fail :=
   let expected := if closed then [] else s.expectedTokens
+  -- known finding C16-shared-reset-token, and nothing else: the map holds no stale token, and every token it lacks was
+  -- registered twice at once earlier (the map is a set: the first removal deleted the entry)
+  let missing := expected.filter fun t => !s.rt.contains t
+  let cls := if s.rt.all expected.contains && !missing.isEmpty && missing.all shared.contains then "shared_token" else "-"
   (if sameMultiset reg expected then [] else
     [("tokens_exact", "-", s!"add/remove token callbacks leave {reg.length} tokens registered, the IDs in use have {expected.length}")]) ++
   (if sameSet s.rt expected then [] else
-    [("tokens_registered_exact", "-", s!"the handler map holds {s.rt.length} reset tokens, the IDs in use have {expected.length}")])
+    [("tokens_registered_exact", cls, s!"the handler map holds {s.rt.length} reset tokens, the IDs in use have {expected.length}")])
 
 /-! ### generator / routing ghost -/
 
